@@ -690,7 +690,7 @@ func verdictV1(r *verifkit.Run, svc *Service, w *vf30World, setEpoch func(uint64
 	// other requests and/or after epoch ticks (which purge the caches, as the node wires
 	// them).  Every presentation is judged on its own by the reference: what an earlier
 	// presentation of the token yielded must not matter.
-	if rng.IntN(3) == 0 {
+	if live := rng.IntN(4) == 0; live || err == nil { // every token honoured at first, a quarter of the others
 		first := vf30Word(err == nil, "honoured", "rejected")
 		ticked := false
 		for step, steps := 0, 2+rng.IntN(2); step < steps; step++ {
@@ -707,7 +707,7 @@ func verdictV1(r *verifkit.Run, svc *Service, w *vf30World, setEpoch func(uint64
 				ticked = true
 			}
 			d2 := map[string]any{"case": ci, "family": "v1", "scheme": scheme, "mutation": mut, "token_hex": desc["token_hex"], "life_step": step + 1,
-				"first_presentation": desc, "epoch": w.epoch, "req_verb": int(q2.verb), "req_container": q2.cnr.String(), "req_object": q2.obj.String(), "req_is_tombstone_put": q2.tombstone}
+				"first_presentation": vf30Brief(desc), "epoch": w.epoch, "req_verb": int(q2.verb), "req_container": q2.cnr.String(), "req_object": q2.obj.String(), "req_is_tombstone_put": q2.tombstone}
 			var errN error
 			if r.Guard(d2, func() { _, errN = svc.VerifySessionV1TokenMessage(m, q2.verb, q2.cnr, q2.obj) }) {
 				break
@@ -721,6 +721,17 @@ func verdictV1(r *verifkit.Run, svc *Service, w *vf30World, setEpoch func(uint64
 		}
 		setEpoch(vf30Epoch)
 	}
+}
+
+// vf30Brief copies a case description without the token (the caller repeats it once).
+func vf30Brief(d map[string]any) map[string]any {
+	c := make(map[string]any, len(d))
+	for k, v := range d {
+		if k != "token_hex" {
+			c[k] = v
+		}
+	}
+	return c
 }
 
 func vf30Word(c bool, yes, no string) string {
@@ -945,7 +956,7 @@ func vf30CaseV2(r *verifkit.Run, svc *Service, w *vf30World, setEpoch func(uint6
 	// (V2 lifetimes are seconds, epochs are much longer), sometimes across an epoch tick -
 	// and with the same or another request.  Every presentation is judged on its own by
 	// the reference at the chain time of that presentation.
-	if rng.IntN(2) == 0 {
+	if live := rng.IntN(4) == 0; live || verr == nil { // every token honoured at first, a quarter of the others
 		first := vf30Word(verr == nil, "honoured", "rejected")
 		ticked := false
 		for step, steps := 0, 2+rng.IntN(3); step < steps; step++ {
@@ -963,7 +974,7 @@ func vf30CaseV2(r *verifkit.Run, svc *Service, w *vf30World, setEpoch func(uint6
 				how += "+epoch-tick"
 			}
 			d2 := map[string]any{"case": ci, "family": "v2", "scheme": scheme, "mutation": mut, "delegated": delegated, "token_hex": desc["token_hex"], "life_step": step + 1,
-				"first_presentation": desc, "now_unix_ms": w.now.UnixMilli(), "epoch": w.epoch, "req_verb": int(v2), "req_container": c2.String()}
+				"first_presentation": vf30Brief(desc), "now_unix_ms": w.now.UnixMilli(), "epoch": w.epoch, "req_verb": int(v2), "req_container": c2.String()}
 			var errN error
 			if r.Guard(d2, func() { _, errN = svc.VerifySessionTokenMessage(m, v2, c2) }) {
 				break
@@ -1115,7 +1126,7 @@ func vf30CaseBearer(r *verifkit.Run, svc *Service, w *vf30World, setEpoch func(u
 
 	// life of the token: the SAME message again on the same service, for other requests
 	// and/or after epoch ticks (which purge the caches, as the node wires them)
-	if rng.IntN(3) == 0 {
+	if live := rng.IntN(4) == 0; live || err == nil { // every token honoured at first, a quarter of the others
 		first := vf30Word(err == nil, "honoured", "rejected")
 		ticked := false
 		for step, steps := 0, 2+rng.IntN(2); step < steps; step++ {
@@ -1138,7 +1149,7 @@ func vf30CaseBearer(r *verifkit.Run, svc *Service, w *vf30World, setEpoch func(u
 				how += "+epoch-tick"
 			}
 			d2 := map[string]any{"case": ci, "family": "bearer", "scheme": scheme, "mutation": mut, "token_hex": desc["token_hex"], "life_step": step + 1,
-				"first_presentation": desc, "epoch": w.epoch, "req_container": c2.String(), "container_owner": o2.String(), "sender": s2.String()}
+				"first_presentation": vf30Brief(desc), "epoch": w.epoch, "req_container": c2.String(), "container_owner": o2.String(), "sender": s2.String()}
 			var errN error
 			if r.Guard(d2, func() {
 				var btN bearer.Token
